@@ -372,7 +372,7 @@ def main(ck):
     nt = maxdepth >= 2
     ck.case(nontrivial=nt, key=text, labels=labels, sample=dict(kind='valid', use_depth=maxdepth, text=text[:1500]) if nt else None)
 
-  ck.run_hypothesis(test_valid, st.tuples(sl.valid_schema('lang'), st.integers(0, 59)), ck.budget(400, 60000), name='valid')
+  ck.run_hypothesis(test_valid, st.tuples(sl.valid_schema('lang'), st.integers(0, 59)), ck.budget(300, 6000), name='valid')
 
   # ---------------------------------------------------------------- one-rule mutations: rejected
   names = sorted(sl.MUTATIONS)
@@ -390,7 +390,7 @@ def main(ck):
               sample=dict(kind='mutation', mutation=name, error=str(r), text=text[-600:]))
     return test_mutation
 
-  per = max(8, ck.budget(1000, 120000) // len(names))       # every mutation kind gets the same share of the budget
+  per = max(8, ck.budget(850, 8500) // len(names))       # every mutation kind gets the same share of the budget
   for name in names:
     ck.run_hypothesis(make_test(name), st.tuples(sl.valid_schema('lang', max_groups=3, max_elements=3),
                                                  st.integers(0, 10 ** 6), st.integers(0, 59)), per, name='mutation-' + name)
@@ -404,7 +404,7 @@ def main(ck):
       check_rules(r, 'token soup', text)
     ck.case(nontrivial=False, key=text, labels=['soup:' + ('accepted' if isinstance(r, S.Schema) else 'rejected')])
 
-  ck.run_hypothesis(test_soup, sl.token_soup(), ck.budget(1000, 100000), name='token-soup')
+  ck.run_hypothesis(test_soup, sl.token_soup(), ck.budget(800, 40000), name='token-soup')
 
   def test_edit(case):
     model, style, seed, nedits = case
@@ -419,7 +419,7 @@ def main(ck):
             ['editop:' + o for o in ops])
 
   ck.run_hypothesis(test_edit, st.tuples(sl.valid_schema('lang', max_groups=3, max_elements=3), st.integers(0, 59),
-                                         st.integers(0, 10 ** 6), st.integers(1, 3)), ck.budget(400, 80000), name='token-edits')
+                                         st.integers(0, 10 ** 6), st.integers(1, 3)), ck.budget(300, 6000), name='token-edits')
 
   # ---------------------------------------------------------------- use chains and long inputs
   def test_chain(case):
@@ -466,7 +466,7 @@ def main(ck):
   for i, t in enumerate(corpus):
     with open(os.path.join(cdir, 'valid%02d' % i), 'w') as f:
       f.write(t)
-  secs = ck.budget(20, 600)
+  secs = ck.budget(15, 300)
   env = dict(os.environ, PYTHONPATH='/verif:' + deps)
   cmd = [sys.executable, '/verif/native/C41/atheris_parse.py', cdir, '-max_total_time=%d' % secs, '-max_len=4096',
          '-seed=%d' % ck.seed, '-dict=/verif/native/C41/schema.dict', '-artifact_prefix=%s/crash-%s-' % (work, tag),
@@ -500,7 +500,7 @@ expansion); each of 34 one-rule mutations must raise SchemaError; token soup, un
 texts must either raise SchemaError with a line inside the text or return a Schema that satisfies an independent iterative
 re-implementation of the documented rules; `use` chains up to 200 links and a 3000-element input are accepted.'''
 LEVEL_NOTE = '''Trusted: the generator's reading of the grammar (module docstring of mjcf_schema.py, header of
-src/xml/mjcf.schema). Coverage-guided byte fuzzing uses atheris 3.1 from /verif/.deps (20 s quick / 600 s thorough, seed
+src/xml/mjcf.schema). Coverage-guided byte fuzzing uses atheris 3.1 from /verif/.deps (15 s quick / 300 s thorough, seed
 corpus = generated valid schemas, max_len 4096 so deep use chains are out of reach by construction). Known-finding probes: use-chain-recursion (RecursionError beyond the interpreter recursion limit),
 bare-minmax-facet (`(min)` without value accepted because True is an int), group-requires-arity (`requires x y+z` accepted
 inside a group; only validated in elements).'''
